@@ -254,6 +254,7 @@ var checks = []Check{
 		Technique:   "explicit-state search over operation histories on the real objects + preemption-bounded schedule exploration",
 		Assumptions: engineAssumptions,
 		Jobs: []Job{
+			{Pkg: "proc/redis", Scenarios: []string{"C19/hotkey-pipelined"}, Shards: 8, QuickS: 90, ThoroughS: 240},
 			{Pkg: "proc/redis/hotkey", Scenarios: []string{"C19/evict-states"}, Shards: 1, QuickS: 60, ThoroughS: 120},
 			{Pkg: "proc/redis/hotkey", Scenarios: []string{"C19/counter", "C19/insert"}, Shards: 1, QuickS: 60, ThoroughS: 240},
 			{Pkg: "proc/redis/hotkey", Scenarios: []string{"C19/collector"}, Shards: 16, QuickS: 60, ThoroughS: 240},
